@@ -278,9 +278,6 @@ func (b *Broker[T]) Stop() {
 // Wait blocks until either the context has been canceled, or all work
 // has been completed.
 func (b *Broker[T]) Wait(ctx context.Context) {
-	b.mu.Lock()
-	defer b.mu.Unlock()
-
 	b.wg.Wait(ctx)
 }
 
